@@ -482,6 +482,61 @@ func genRaces() {
 	execLine("finish a")
 }
 
+func fcommentLine(room int, lvl string, user []byte, req string, ctype int, text []byte, ip []byte) string {
+	return fmt.Sprintf("fcomment %d", room) + strings.TrimPrefix(commentLine("ptt", lvl, user, req, ctype, text, ip), "comment")
+}
+
+// write faults after the open, in both append branches (EDITPOST_SMARTMERGE off: doAddRecommendNoSmartMerge;
+// on: doAddRecommendSmartMerge, which is retried 5 x 1 s): the comment is refused, every earlier byte of the
+// article stays, the index does not move; ordinary comments before and after
+func genFaults() {
+	u := userArr("A1", nil)
+	ip := ipArr("7.7.7.7")
+	body := []byte("author: x\ntitle: y\n\nthe body of the article\n--\n\x1b[1;37m\xb1\xc0 \x1b[33mearlier\x1b[m\x1b[33m: an earlier comment   \x1b[m 01/01 00:00\n")
+	var dir []byte
+	for k := 0; k < 4; k++ {
+		dir = append(dir, mkRec(artName('M', k), int8([]int{0, 99, -100, 50}[k]), 0, k)...)
+	}
+	rooms := []int{0, 1, 2, 7, 8, 9, 17, 39, 40}
+	if run.Thorough() {
+		rooms = nil
+		for r := 0; r <= 40; r++ {
+			rooms = append(rooms, r)
+		}
+	}
+	for cfg := 0; cfg < 4; cfg++ {
+		old := cfg&2 != 0
+		execLine(resetLine(attrOf(cfg), old, false, body, dir)) // no smart merge
+		execLine(commentLine("ptt", "user", u, artName('M', 0), 1, []byte("before the fault"), ip))
+		for i, r := range rooms {
+			execLine(fcommentLine(r, []string{"user", "sysop"}[i%2], u, artName('M', i%4), 1+i%3, randText(30), ip))
+			if i%3 == 2 {
+				execLine(commentLine("ptt", "user", u, artName('M', i%4), 2, []byte("glued to the torn line"), ip))
+			}
+		}
+		// refused before any write, missing file, unknown entry: the limit plays no role
+		execLine(fcommentLine(3, "user", u, artName('M', 1), 1, []byte("line\nbreak"), ip))
+		execLine(fcommentLine(3, "user", u, "M.1400000000.A.001", 1, []byte("nobody"), ip))
+		execLine("dump")
+	}
+	// the branch that locks: one fault (its four retries cost a second each), both layouts in thorough
+	n := 1
+	if run.Thorough() {
+		n = 4
+	}
+	for i := 0; i < n; i++ {
+		execLine(resetLine(attrOf(i), i%2 == 1, true, body, dir))
+		execLine(commentLine("ptt", "user", u, artName('M', 1), 1, []byte("before the fault"), ip))
+		execLine(fcommentLine([]int{5, 0, 40, 13}[i], "user", u, artName('M', 1), 1, []byte("does not fit"), ip))
+		execLine(commentLine("ptt", "user", u, artName('M', 1), 1, []byte("after the fault"), ip))
+		execLine("dump")
+	}
+	// protocol edges
+	execLine("fcomment 41" + strings.TrimPrefix(commentLine("ptt", "user", u, artName('M', 0), 1, []byte("x"), ip), "comment"))
+	execLine("fcomment x" + strings.TrimPrefix(commentLine("ptt", "user", u, artName('M', 0), 1, []byte("x"), ip), "comment"))
+	execLine("fcomment 3 ptt")
+}
+
 // random histories: 1-30 comments on 2-6 articles
 func genHistories() {
 	n := 150
